@@ -51,7 +51,58 @@ func placeReal(ratio, baseSlot uint16, s uint16) int {
 	return got
 }
 
+// monthSweep (round 12, oracle only, UTC): ONE calendar month, EVERY day of it (28, 29, 30 or 31),
+// first / last / a random hour: the target calculators alone (segment, family, family start, slot of
+// the timestamp) against the wall clock read with Go's time package. A year-type family is the
+// only family whose length is not a constant; Props/C04Family.lean (year_family_slots_greg,
+// slot_modulus_exact_iff) is the theorem side of this sweep.
+func monthSweep(c *core.Ctx, rng *rand.Rand) {
+	y := int64(2015 + rng.Intn(21))
+	m := int64(1 + rng.Intn(12))
+	if rng.Intn(3) == 0 {
+		m = []int64{1, 2, 3, 12}[rng.Intn(4)]
+	}
+	first := daysFromCivil(y, m, 1)
+	next := daysFromCivil(y, m+1, 1)
+	if m == 12 {
+		next = daysFromCivil(y+1, 1, 1)
+	}
+	c.Branch(fmt.Sprintf("month-sweep-%d-days", next-first))
+	var tgts []int64
+	for len(tgts) < 3 {
+		t := arithTargets[rng.Intn(len(arithTargets))]
+		if timeutil.Interval(t).Type() != timeutil.Day {
+			tgts = append(tgts, t)
+		}
+	}
+	tgts = append(tgts, hour)
+	for _, tgt := range tgts {
+		tc := timeutil.Interval(tgt).Calculator()
+		for d := first; d < next; d++ {
+			for _, off := range []int64{0, 23*hour + 59*60000 + 59000, int64(rng.Intn(int(24 * hour)))} {
+				ts := localMidnight(d) + off
+				ref := refPlace(ts, tgt)
+				seg := tc.CalcSegmentTime(ts)
+				fam := tc.CalcFamily(ts, seg)
+				fS := tc.CalcFamilyStartTime(seg, fam)
+				if seg != ref.segT || fam != ref.fam || fS != ref.famStart || tc.CalcFamilyEndTime(fS) != ref.famEnd {
+					c.Fail("target-calculator-vs-wall-clock", fmt.Sprintf("interval %d, timestamp %d (%s, day %d of a %d-day month): the calculator gives segment %d, family %d [%d, %d]; by the wall clock it is segment %d, family %d [%d, %d]",
+						tgt, ts, time.UnixMilli(ts).UTC().Format(time.RFC3339), d-first+1, next-first, seg, fam, fS, tc.CalcFamilyEndTime(fS), ref.segT, ref.fam, ref.famStart, ref.famEnd))
+					return
+				}
+				if got := int64(tc.CalcSlot(ts, fS, tgt)); got != ref.slot {
+					c.Fail("target-calcslot-vs-wall-clock", fmt.Sprintf("interval %d, timestamp %d (%s, day %d of a %d-day month), family start %d: CalcSlot = %d, but the timestamp lies in window %d of the family (slots of that day: %d..%d)",
+						tgt, ts, time.UnixMilli(ts).UTC().Format(time.RFC3339), d-first+1, next-first, fS, got, ref.slot,
+						(localMidnight(d)-fS)/tgt, (localMidnight(d+1)-1-fS)/tgt))
+					return
+				}
+			}
+		}
+	}
+}
+
 func arithCase(c *core.Ctx, rng *rand.Rand) {
+	monthSweep(c, rand.New(rand.NewSource(rng.Int63())))
 	for n := 0; n < 6; n++ {
 		var src, tgt int64
 		for {
@@ -120,6 +171,12 @@ func arithCase(c *core.Ctx, rng *rand.Rand) {
 				ts := r.GetTimestamp(uint16(s))
 				if ts != fst+int64(s)*src {
 					c.Fail("rollup-timestamp", fmt.Sprintf("interval %d: GetTimestamp(%d) = %d for family start %d", src, s, ts, fst))
+				}
+				// the calculator's own slot against the wall clock (valid for every pair: it is the
+				// target family's window that contains the timestamp)
+				if ref := refPlace(ts, tgt); ref.famStart == fS && int64(tc.CalcSlot(ts, fS, tgt)) != ref.slot {
+					c.Fail("target-calcslot-vs-wall-clock", fmt.Sprintf("interval %d, timestamp %d (%s), target family start %d: the calculator's CalcSlot = %d, but the timestamp lies in window %d of the family%s",
+						tgt, ts, time.UnixMilli(ts).In(time.Local).Format("2006-01-02T15:04:05Z07:00"), fS, tc.CalcSlot(ts, fS, tgt), ref.slot, zoneSuffix()))
 				}
 				if want := uint16(tc.CalcSlot(ts, fS, tgt)); r.CalcSlot(ts) != want {
 					c.Fail("rollup-calcslot-vs-calculator", fmt.Sprintf("interval %d -> %d, source family start %d, target family start %d: rollup.CalcSlot(%d) = %d (source slot %d), the target interval's calculator puts that timestamp in slot %d",
